@@ -23,6 +23,8 @@ func TestProp(t *testing.T) {
 	}
 	r.SetRule("enumerated: checksum type {12,15,16,19,20,-138} x data length 0..200 x usage set x K seeded keys (the last key of every type has the same bytes for all types of equal key length): GetChecksumHash compared with the reference and VerifyChecksum(correct)=true; " +
 		"for every 8th case negatives: every truncation, one-byte extensions, every single-bit flip of the checksum, other data, other key, other usage, empty and nil checksum must verify false; " +
+		"usage sweep: every key usage number 0..4095 (thorough: 0..65535 and 200 000 seeded 32-bit numbers) per type with a fixed key and 19 bytes of data, value and verification; " +
+		"keys of every wrong length 0..40 with nil, empty, all-zero and correct-for-another-length checksums must never verify; " +
 		"GetChksumEtype checked against the IANA registry for every id in -200..200. distinct = (type,len,usage,key[,negative]); all non-trivial")
 	r.Assume("reference checksums ref/kcrypto (RFC 3961 5.3/6.3, RFC 3962 7, RFC 8009 6, RFC 4757 4) self-tested against RFC vectors on every run")
 	nkeys := 2
@@ -73,7 +75,11 @@ func TestProp(t *testing.T) {
 			one(r, u.ct, et, u.ki, key, u.n, usage, (u.n+ui)%8 == 0)
 		}
 	})
+	usageSweep(r)
+	wrongSizeKeys(r)
 	r.Exhaustive("checksum type x data length 0..200 x usage set; ids -200..200")
+	r.Require("usage_sweep_equal", 20000)
+	r.Require("wrong_size_key_never_verifies", 500)
 	r.Require("checksum_equal", 5000)
 	r.Require("verify_exact_true", 5000)
 	r.Require("neg_bitflip_false", 5000)
@@ -179,5 +185,126 @@ func one(r *vh.Run, ctype, et int32, ki int, key []byte, n int, usage uint32, ne
 			continue
 		}
 		verify(fmt.Sprintf("otherusage:%d", u), key, data, want, u, false, "neg_otherusage_false")
+	}
+}
+
+// usageSweep: the key usage number enters the key derivation through n-fold, whose end-around carries depend on the bit
+// pattern of the number: a handful of usages can be wrong while every usage the library itself uses is right.
+func usageSweep(r *vh.Run) {
+	max := uint32(4096)
+	nrand := 0
+	if vh.Thorough() {
+		max, nrand = 65536, 200000
+	}
+	const chunk = 512
+	type unit struct {
+		ct   int32
+		from uint32
+		rnd  int // >0: this many seeded 32-bit usages instead of a range
+	}
+	var units []unit
+	for _, ct := range cksumTypes {
+		for f := uint32(0); f < max; f += chunk {
+			units = append(units, unit{ct, f, 0})
+		}
+		for i := 0; i < nrand; i += chunk {
+			units = append(units, unit{ct, uint32(i), chunk})
+		}
+	}
+	vh.Workers(len(units), func(i int) {
+		u := units[i]
+		uk := fmt.Sprintf("usage-sweep/type=%d/from=%d/rnd=%d", u.ct, u.from, u.rnd)
+		if !r.Mine(uk) {
+			return
+		}
+		et := kcrypto.EtypeOfCksum[u.ct]
+		key := pcommon.RefKey(vh.NewRand("c07sweepkey", u.ct), et)
+		data := vh.NewRand("c07sweepdata", u.ct).Bytes(19)
+		e, gerr := crypto.GetChksumEtype(u.ct)
+		if gerr != nil {
+			return
+		}
+		g := vh.NewRand("c07sweepusages", u.ct, u.from)
+		for j := uint32(0); j < chunk; j++ {
+			usage := u.from + j
+			if u.rnd > 0 {
+				usage = uint32(g.U64())
+			}
+			ck := fmt.Sprintf("usage-sweep/type=%d/usage=%d", u.ct, usage)
+			r.Eval(ck, true)
+			want, err := kcrypto.Checksum(et, key, usage, data)
+			if err != nil {
+				r.Inconclusive("reference checksum: " + err.Error())
+				return
+			}
+			var got []byte
+			var ok bool
+			d := map[string]any{"case": ck, "type": u.ct, "usage": usage, "key": fmt.Sprintf("%x", key), "data": fmt.Sprintf("%x", data), "expected": fmt.Sprintf("%x", want)}
+			if p, v, w := vh.Guard(func() {
+				got, err = e.GetChecksumHash(key, append([]byte{}, data...), usage)
+				ok = e.VerifyChecksum(key, append([]byte{}, data...), want, usage)
+			}); p {
+				r.Violation(fmt.Sprintf("C07|panic|%s|%s|type=%d|usage-sweep", w, vh.PanicClass(v), u.ct), "checksum panicked: "+v, d)
+				continue
+			}
+			switch {
+			case err != nil || !bytes.Equal(got, want):
+				d["gokrb5"] = fmt.Sprintf("%x", got)
+				r.Violation(fmt.Sprintf("C07|value|type=%d|usage-sweep", u.ct), fmt.Sprintf("GetChecksumHash = %x (err %v), RFC value %x for key usage %d", got, err, want, usage), d)
+			case !ok:
+				r.Violation(fmt.Sprintf("C07|verify=false|type=%d|exact|usage-sweep", u.ct), fmt.Sprintf("VerifyChecksum rejects the RFC value for key usage %d", usage), d)
+			default:
+				r.Inc("usage_sweep_equal")
+			}
+		}
+	})
+}
+
+// wrongSizeKeys: with a key that is not a key of the checksum type's family there is no defined checksum, so nothing may
+// verify - in particular not the empty checksum, which is what a failed computation leaves behind.
+func wrongSizeKeys(r *vh.Run) {
+	for _, ct := range cksumTypes {
+		et := kcrypto.EtypeOfCksum[ct]
+		if et == kcrypto.RC4 {
+			continue // HMAC-MD5 takes keys of any length
+		}
+		e, gerr := crypto.GetChksumEtype(ct)
+		if gerr != nil {
+			continue
+		}
+		for kl := 0; kl <= 40; kl++ {
+			if kl == kcrypto.KeyLen(et) {
+				continue
+			}
+			ck := fmt.Sprintf("wrong-size-key/type=%d/keylen=%d", ct, kl)
+			if !r.Mine(ck) {
+				continue
+			}
+			g := vh.NewRand("c07wrongkey", ct, kl)
+			key := g.Bytes(kl)
+			data := g.Bytes(23)
+			right, _ := kcrypto.Checksum(et, pcommon.RefKey(g, et), 7, data)
+			var hashOfKey []byte
+			vh.Guard(func() { hashOfKey, _ = e.GetChecksumHash(key, append([]byte{}, data...), 7) })
+			cands := map[string][]byte{"nil": nil, "empty": {}, "zeros": make([]byte, len(right)), "right-for-a-valid-key": right, "one-zero": {0}}
+			if len(hashOfKey) > 0 {
+				cands["what-GetChecksumHash-returned-for-this-key"] = hashOfKey
+			}
+			for name, c := range cands {
+				sub := ck + "/" + name
+				r.Eval(sub, true)
+				var ok bool
+				d := map[string]any{"case": sub, "type": ct, "key": fmt.Sprintf("%x", key), "data": fmt.Sprintf("%x", data), "presented": fmt.Sprintf("%x", c)}
+				if p, v, w := vh.Guard(func() { ok = e.VerifyChecksum(key, append([]byte{}, data...), c, 7) }); p {
+					r.Violation(fmt.Sprintf("C07|panic|%s|%s|type=%d|wrong-size-key", w, vh.PanicClass(v), ct), "VerifyChecksum panicked: "+v, d)
+					continue
+				}
+				if ok && name != "what-GetChecksumHash-returned-for-this-key" {
+					r.Violation(fmt.Sprintf("C07|verify=true|type=%d|wrong-size-key|%s", ct, name), fmt.Sprintf("VerifyChecksum returns true for a %d-byte key (the type takes %d bytes) and the %s checksum", kl, kcrypto.KeyLen(et), name), d)
+					continue
+				}
+				r.Inc("wrong_size_key_never_verifies")
+			}
+		}
 	}
 }
